@@ -1,11 +1,17 @@
 """Program spaces of the detector checks (C01, C02, C03): per detector, the alphabet of the
 fields it governs (+ self-checks through gtxn forms), layered as in mc/gen/spaces.py."""
+import hashlib
 from typing import Any, Iterator, List, Set, Tuple
 
 from mc.gen import atoms as A
 from mc.gen import spaces
 
 Z = "global ZeroAddress"
+
+
+def _h(s: str) -> bytes:
+    """128-bit digest used to de-duplicate programs without keeping their text."""
+    return hashlib.md5(s.encode()).digest()
 
 
 def _addr_small(field: str) -> List[A.Atom]:
@@ -19,23 +25,25 @@ def _addr_small(field: str) -> List[A.Atom]:
     ]
 
 
-def detector_spaces(tier: str) -> Iterator[Tuple[str, str, str]]:  # pylint: disable=too-many-locals,too-many-statements
+def detector_spaces(tier: str, chains: bool = True) -> Iterator[Tuple[str, str, str]]:  # pylint: disable=too-many-locals,too-many-statements
     """Yields (focus detector, mode, program); mode 'direct' = direct-check fragment."""
     q = tier == "quick"
     top = 2 if q else None
-    seen: Set[str] = set()
+    seen: Set[bytes] = set()
 
     def emit(focus: str, mode: str, gen: Iterator[str]) -> Iterator[Tuple[str, str, str]]:
         for s in gen:
-            if s not in seen:
-                seen.add(s)
+            h = _h(s)
+            if h not in seen:
+                seen.add(h)
                 yield focus, mode, s
 
     # rekey-to
     full = A.addr_atoms("RekeyTo") + A.gtxn_variants(["txn RekeyTo", Z, "=="], "txn RekeyTo", (0, 1), (1,))
-    yield from emit("rekey-to", "direct", spaces.layered(full, _addr_small("RekeyTo"), tier, l2_top_alpha=top))
-    sh = A.shuffled(["txn RekeyTo", Z, "=="])
-    yield from emit("rekey-to", "shuffle", spaces.layered(sh, sh[:2], tier, l2_size=2, l3=False, max_subs=1))
+    yield from emit("rekey-to", "direct", spaces.layered(full, _addr_small("RekeyTo"), tier, chains=chains, l2_top_alpha=top))
+    sh = (A.shuffled(["txn RekeyTo", Z, "=="]) + A.cross_block(["txn RekeyTo", f"addr {A.LIT1}", "!="])
+          + A.cross_block(["txn Fee", "int 1000", ">"]) + A.cross_block(["txn OnCompletion", "int UpdateApplication", "=="]))
+    yield from emit("rekey-to", "shuffle", spaces.layered(sh, sh[:2], tier, chains=False, l2_size=2, l3=False, max_subs=1))
     # can-close-account / can-close-asset
     for det, field, ty in (("can-close-account", "CloseRemainderTo", "pay"), ("can-close-asset", "AssetCloseTo", "axfer")):
         small = [
@@ -47,7 +55,7 @@ def detector_spaces(tier: str) -> Iterator[Tuple[str, str, str]]:  # pylint: dis
         ]
         full = A.addr_atoms(field, (Z, f"addr {A.LIT1}")) + A.cmp_atoms(["txn TypeEnum"], ["int pay", "int axfer", "int appl", "int 1", "int 4"], ("==", "!="))
         l2 = 2 if (q or det == "can-close-asset") else 3
-        yield from emit(det, "direct", spaces.layered(full[::2] if q else full, small, tier, l2_size=l2, max_subs=1))
+        yield from emit(det, "direct", spaces.layered(full[::2] if q else full, small, tier, chains=chains, l2_size=l2, max_subs=1))
     # missing-fee-check
     full = A.fee_atoms((1000, 272000, 272001) if q else (0, 1000, 272000, 272001, 1000000))
     small = [
@@ -57,7 +65,7 @@ def detector_spaces(tier: str) -> Iterator[Tuple[str, str, str]]:  # pylint: dis
         ["txn GroupIndex", "int 0", "=="],
         ["gtxn 0 Fee", "int 1000", "<="],
     ]
-    yield from emit("missing-fee-check", "direct", spaces.layered(full[::2] if q else full, small, tier, l2_top_alpha=top, l2_size=2 if q else None))
+    yield from emit("missing-fee-check", "direct", spaces.layered(full[::2] if q else full, small, tier, chains=chains, l2_top_alpha=top, l2_size=2 if q else None))
     # is-updatable / is-deletable
     full = A.kind_atoms("small" if q else "full")
     small = [
@@ -67,7 +75,7 @@ def detector_spaces(tier: str) -> Iterator[Tuple[str, str, str]]:  # pylint: dis
         ["int DeleteApplication", "txn OnCompletion", "=="],
         ["txn TypeEnum", "int pay", "!="],
     ]
-    yield from emit("is-updatable", "direct", spaces.layered(full[::2] if q else full, small, tier, l2_top_alpha=top, l2_size=2 if q else None))
+    yield from emit("is-updatable", "direct", spaces.layered(full[::2] if q else full, small, tier, chains=chains, l2_top_alpha=top, l2_size=2 if q else None))
     # unprotected-updatable / -deletable
     small = [
         ["txn OnCompletion", "int UpdateApplication", "!="],
@@ -79,7 +87,7 @@ def detector_spaces(tier: str) -> Iterator[Tuple[str, str, str]]:  # pylint: dis
     full = A.addr_atoms("Sender", ("global CreatorAddress", f"addr {A.LIT1}")) + A.cmp_atoms(
         ["txn OnCompletion"], ["int UpdateApplication", "int DeleteApplication", "int NoOp"], ("==", "!=")
     )
-    yield from emit("unprotected-updatable", "direct", spaces.layered(full, small, tier, l2_size=2 if q else 3, max_subs=1))
+    yield from emit("unprotected-updatable", "direct", spaces.layered(full, small, tier, chains=chains, l2_size=2 if q else 3, max_subs=1))
     # group-size-check: statements that read another transaction by absolute index
     kinds = ("assert", "ret", "ret1", "err", "if", "while", "call", "pad")
     small = [
@@ -88,9 +96,9 @@ def detector_spaces(tier: str) -> Iterator[Tuple[str, str, str]]:  # pylint: dis
         ["global GroupSize", "int 16", "<"],
         ["global GroupSize", "int 16", "!="],
     ]
-    full = A.size_atoms((2, 16, 17) if q else (1, 2, 3, 16, 17))
-    yield from emit("group-size-check", "direct", spaces.layered(full, small, tier, kinds=kinds, pad=("gtxn 1 Fee", "pop"), l3=not q, l2_top_alpha=1 if q else None))
+    full = A.size_atoms((0, 2, 16, 17) if q else (0, 1, 2, 3, 16, 17))
+    yield from emit("group-size-check", "direct", spaces.layered(full, small, tier, chains=chains, kinds=kinds, pad=("gtxn 1 Fee", "pop"), l3=not q, l2_top_alpha=1 if q else None))
     yield from emit(
         "group-size-check", "direct",
-        spaces.layered(full[:8], small[:2], tier, kinds=kinds, pad=("int 0", "gtxns Fee", "pop"), l2_size=2, l3=False, max_subs=1),
+        spaces.layered(full[:8], small[:2], tier, chains=False, kinds=kinds, pad=("int 0", "gtxns Fee", "pop"), l2_size=2, l3=False, max_subs=1),
     )
